@@ -230,7 +230,7 @@ func (r *transport) handleUnrecognizedMethod(
 		return make504Response(req)
 	}
 	if !internal.IsUnsafeMethod(req.Method) {
-		resp, err := r.upstream.RoundTrip(req)
+		resp, err := r.callUpstream(req)
 		if err != nil {
 			return nil, err
 		}
@@ -243,7 +243,7 @@ func (r *transport) handleUnrecognizedMethod(
 		)
 		return resp, nil
 	}
-	resp, err := r.upstream.RoundTrip(req)
+	resp, err := r.callUpstream(req)
 	if err != nil {
 		return nil, err
 	}
@@ -544,11 +544,22 @@ func (r *transport) backgroundRevalidate(
 	}
 }
 
+// callUpstream forwards req. An upstream that is not one of net/http's own
+// transports may hand over a response whose Header map is nil; the cache adds
+// fields to every response it returns, so it gets an empty map instead.
+func (r *transport) callUpstream(req *http.Request) (*http.Response, error) {
+	resp, err := r.upstream.RoundTrip(req)
+	if resp != nil && resp.Header == nil {
+		resp.Header = make(http.Header)
+	}
+	return resp, err
+}
+
 func (r *transport) roundTripTimed(
 	req *http.Request,
 ) (resp *http.Response, start, end time.Time, err error) {
 	start = r.clock.Now()
-	resp, err = r.upstream.RoundTrip(req)
+	resp, err = r.callUpstream(req)
 	end = r.clock.Now()
 	if resp != nil {
 		_ = internal.FixDateHeader(resp.Header, end)
